@@ -1,6 +1,7 @@
 #!/bin/bash
 # usage: seed_run.sh <patch.diff> <check ids...>   applies the change to /repo, runs the checks, restores /repo
 p="$(cd "$(dirname "$1")" && pwd)/$(basename "$1")"; shift
+export GBCHECK_OUT=$(mktemp -d /tmp/gbout.XXXXXX); trap 'rm -rf "$GBCHECK_OUT"' EXIT  # scratch runs never overwrite /verif/evidence
 cd /repo || exit 2
 git diff --quiet || { echo "/repo is dirty"; exit 2; }
 git apply "$p" || { echo "patch does not apply"; exit 3; }
